@@ -306,13 +306,13 @@ macro_rules! c10_fastvec {
 // unwind: model loops run CAP=8 times
 c10_fastvec!(c10_fastvec_u8_pre1_pushpop_ops2, quick, 10, u8, 1, 2, 0x003);
 c10_fastvec!(c10_fastvec_tracked_pre2_insert_remove_ops1, quick, 10, Tracked, 2, 1, 0x00c);
-c10_fastvec!(c10_fastvec_u8_pre2_pushpop_ins_rem_ops2, thorough, 10, u8, 2, 2, 0x00f);
-c10_fastvec!(c10_fastvec_tracked_pre2_pushpop_ins_rem_ops2, thorough, 10, Tracked, 2, 2, 0x00f);
+c10_fastvec!(c10_fastvec_u8_pre2_pushpop_ins_rem_ops2, probe, 10, u8, 2, 2, 0x00f);
+c10_fastvec!(c10_fastvec_tracked_pre2_pushpop_ins_rem_ops2, probe, 10, Tracked, 2, 2, 0x00f);
 c10_fastvec!(c10_fastvec_tracked_pre1_resize_clear_shrink_ops2, thorough, 10, Tracked, 1, 2, 0x071);
-c10_fastvec!(c10_fastvec_tracked_pre1_extend_clone_ops2, thorough, 10, Tracked, 1, 2, 0x183);
-c10_fastvec!(c10_fastvec_u8_pre0_pushpop_ins_rem_ops3, thorough, 10, u8, 0, 3, 0x00f);
-c10_fastvec!(c10_fastvec_u8_pre2_all_ops3, thorough, 10, u8, 2, 3, 0x1ff);
-c10_fastvec!(c10_fastvec_tracked_pre2_all_ops3, thorough, 10, Tracked, 2, 3, 0x1ff);
+c10_fastvec!(c10_fastvec_tracked_pre1_extend_clone_ops2, probe, 10, Tracked, 1, 2, 0x183);
+c10_fastvec!(c10_fastvec_u8_pre0_pushpop_ins_rem_ops3, probe, 10, u8, 0, 3, 0x00f);
+c10_fastvec!(c10_fastvec_u8_pre2_all_ops3, probe, 10, u8, 2, 3, 0x1ff);
+c10_fastvec!(c10_fastvec_tracked_pre2_all_ops3, probe, 10, Tracked, 2, 3, 0x1ff);
 
 // ------------------------------------------------------------------------------------------
 // ValVec32
@@ -420,9 +420,9 @@ c10_valvec!(c10_valvec32_u8_pushpop_getset_ops3, quick, 10, u8, 3, 0x0f);
 c10_valvec!(c10_valvec32_tracked_pushpop_clear_ops3, quick, 10, Tracked, 3, 0x13);
 c10_valvec!(c10_valvec32_tracked_push_set_ops3, quick, 10, Tracked, 3, 0x09);
 c10_valvec!(c10_valvec32_tracked_push_clone_ops3, quick, 10, Tracked, 3, 0x41);
-c10_valvec!(c10_valvec32_tracked_extend_clone_reserve_ops3, thorough, 10, Tracked, 3, 0xe1);
-c10_valvec!(c10_valvec32_u8_all_ops4, thorough, 10, u8, 4, 0xff);
-c10_valvec!(c10_valvec32_tracked_all_ops4, thorough, 10, Tracked, 4, 0xff);
+c10_valvec!(c10_valvec32_tracked_extend_clone_reserve_ops3, probe, 10, Tracked, 3, 0xe1);
+c10_valvec!(c10_valvec32_u8_all_ops4, probe, 10, u8, 4, 0xff);
+c10_valvec!(c10_valvec32_tracked_all_ops4, probe, 10, Tracked, 4, 0xff);
 
 // ------------------------------------------------------------------------------------------
 // FixedCircularQueue<_, 4>
@@ -639,9 +639,9 @@ macro_rules! c10_autoq {
 c10_autoq!(c10_autoq_u8_pre311_pushpop_ops2, quick, 10, u8, 311, 2, 0x03, 1);
 c10_autoq!(c10_autoq_tracked_pre311_pushpop_clear_ops2, quick, 10, Tracked, 311, 2, 0x23, 1);
 c10_autoq!(c10_autoq_u8_pre210_bulk2_ops2, quick, 10, u8, 210, 2, 0x0f, 2);
-c10_autoq!(c10_autoq_u8_bulk4_clone_ops2, thorough, 10, u8, 0, 2, 0x44, 4);
+c10_autoq!(c10_autoq_u8_bulk4_clone_ops2, probe, 10, u8, 0, 2, 0x44, 4);
 c10_autoq!(c10_autoq_u8_bulk3_clone_ops2, quick, 10, u8, 0, 2, 0x44, 3);
 c10_autoq!(c10_autoq_tracked_bulk4_clear_ops2, quick, 10, Tracked, 0, 2, 0x24, 4);
-c10_autoq!(c10_autoq_u8_pushpop_ops5, thorough, 10, u8, 0, 5, 0x03, 1);
-c10_autoq!(c10_autoq_u8_bulk3_ops3, thorough, 10, u8, 0, 3, 0x0f, 3);
-c10_autoq!(c10_autoq_tracked_pre311_all_ops3, thorough, 10, Tracked, 311, 3, 0x7f, 2);
+c10_autoq!(c10_autoq_u8_pushpop_ops5, probe, 10, u8, 0, 5, 0x03, 1);
+c10_autoq!(c10_autoq_u8_bulk3_ops3, probe, 10, u8, 0, 3, 0x0f, 3);
+c10_autoq!(c10_autoq_tracked_pre311_all_ops3, probe, 10, Tracked, 311, 3, 0x7f, 2);
